@@ -17,6 +17,7 @@ import time
 import traceback
 
 from . import core
+from . import cov as covtrace
 
 MAX_SAMPLES = 6
 
@@ -99,6 +100,7 @@ class Collector:
 def _shard(args):
     prop, sub_name, tier, seed, shard, nshards = args
     try:
+        covtrace.start()
         _quiet_twisted()
         mod = _load(prop)
         sub = {s.name: s for s in mod.SUBCHECKS}[sub_name]
@@ -122,6 +124,7 @@ def _shard(args):
             def t(case):
                 col.record(case)
             t()
+        covtrace.dump(prop)
         return ('ok', col.result())
     except BaseException:
         return ('err', 'shard %s/%s of %s.%s: %s' % (shard, nshards, prop, sub_name,
@@ -163,6 +166,7 @@ def _shrink(mod, sub, key, tier, seed, budget=400):
 
 def run_property(prop, tier, seed):
     t0 = time.time()
+    covtrace.start()
     from . import refcodec
     refcodec.self_test()
     mod = _load(prop)
